@@ -28,7 +28,8 @@
 (*                    "val_expression", r |-> Int, e |-> Seq(ExprOp)]      *)
 (*   ExprOp  = [o |-> "OpBReg" | "OpDeref" | "OpPlus" | "OpLit" |          *)
 (*                    "OpConst1U" | "OpConst2U" | "OpAddr", a, b |-> Int]  *)
-(*   D(op, r, n) / DSym / DEsc below build such records.                   *)
+(*   D(op, r, n) / DSym / DEsc below build such records; DirOfArgs(op,     *)
+(*   args, sym) builds one from the aux-data operand list.                 *)
 (*                                                                         *)
 (* INPUT forms                                                             *)
 (*   groups : Seq([blk |-> Int, off |-> Int, dirs |-> Seq(Directive)]),    *)
@@ -83,6 +84,15 @@ DSym(op, enc, sym) == [op |-> op, r |-> enc, n |-> 0, sym |-> sym, insts |-> <<>
 DEsc(insts) == [op |-> "escape", r |-> 0, n |-> 0, sym |-> "", insts |-> insts]
 XOp(o, a, b) == [o |-> o, a |-> a, b |-> b]
 EscI(k, r, e) == [k |-> k, r |-> r, e |-> e]
+
+(* From the aux-data form (name without ".cfi_", operand list, symbol name) *)
+(* of every directive except escape (escape: DEsc(EscapeOfBytes(..))).     *)
+DirOfArgs(op, args, sym) ==
+  CASE op \in {"def_cfa", "offset", "rel_offset", "val_offset", "register"} -> D(op, args[1], args[2])
+    [] op \in {"def_cfa_offset", "adjust_cfa_offset"} -> D(op, 0, args[1])
+    [] op \in {"personality", "lsda"} -> DSym(op, args[1], sym)
+    [] op \in {"startproc", "endproc", "remember_state", "restore_state", "nextoff", "nextblk"} -> D(op, 0, 0)
+    [] OTHER -> D(op, args[1], 0)   \* def_cfa_register undefined same_value restore return_column
 
 PeOmit == 255                      \* DW_EH_PE_omit
 IsPosTok(d) == d.op \in {"nextoff", "nextblk"}
